@@ -2,7 +2,11 @@
 (* Impl specification of one TCP/TLS session of iora::network::TcpEngine (tcp_engine.hpp), C01.              *)
 (*                                                                                                          *)
 (* Application threads only enqueue commands (enqueue() under _cmdMutex: the order of the command queue IS   *)
-(* the accepted order).  Everything else is the single I/O thread:                                           *)
+(* the accepted order): push to _cmds + write(_eventFd) (the wake-up).  Everything else is the single I/O     *)
+(* thread.  Its loop wakes on the readable eventfd (WakeEvt), drains the eventfd counter (DrainEvt) and only  *)
+(* then swaps the command queue into a local batch (SwapCmds) which process() works off (io = "proc" until     *)
+(* ProcDone).  Dev_DrainAfterSwap = the counter is drained AFTER the swap: a command enqueued in between has   *)
+(* its wake-up consumed and stays in _cmds with the loop asleep (Inv_NoStuck / Live_Cmd).                     *)
 (*   process()/doSend   -> DoSendDropClosed / DoSendHandshakeQueue / DoSendDirect(k) (full or short; a short  *)
 (*                         plain write requeues the unsent tail at the queue FRONT, a short SSL_write keeps   *)
 (*                         the whole buffer and OpenSSL remembers how far it got) / DoSendEagain /            *)
@@ -42,11 +46,14 @@ CONSTANTS Threads, MaxSends, MaxLen, MaxRoom, MaxWq, Tls, ET, PeerBytes, MaxRcut
           Chunk, RecMax,   \* ioReadChunk; plaintext bytes of one TLS record
           AllowCb,         \* the data callback may park and send
           Dev_PartialTailToBack, Dev_KeepWrittenPrefix, Dev_NoRearmAfterShortSend, Dev_StopReadAfterShort,
-          Dev_LtStopsAfterOneChunk, Dev_IoSendBypassesQueue, Dev_DirectWriteIgnoresQueue
+          Dev_LtStopsAfterOneChunk, Dev_IoSendBypassesQueue, Dev_DirectWriteIgnoresQueue, Dev_DrainAfterSwap
 
 VARIABLES nextIdx,    \* next send index
           acc,        \* ghost: accepted sends in command-queue order, Seq([idx, off, len]) with off = 0
-          cmdq,       \* command queue: Seq([k: "send"|"close", idx, off, len])
+          cmdq,       \* command queue _cmds: Seq([k: "send"|"close", idx, off, len])
+          batch,      \* the commands process() swapped out and is working off
+          ev,         \* the eventfd counter is > 0 (readable)
+          evd,        \* inside one eventfd wake-up: which of {"drain", "swap"} are done
           wq,         \* Session::wq: Seq([idx, off, len]) = bytes off..len-1 of send idx
           sslPend,    \* TLS: bytes of the front buffer OpenSSL has already written (retry pending with the same buffer)
           wire,       \* bytes the kernel took, Seq(<<idx, offset>>)
@@ -56,7 +63,8 @@ VARIABLES nextIdx,    \* next send index
           room,       \* bytes the kernel accepts now
           errNext,    \* the next write call fails with a hard error
           closed,
-          io,         \* "idle" | "wp" (inside writePending) | "rd" (inside readAvail) | "cb" (inside the data callback)
+          io,         \* "idle" | "ev" (woken by the eventfd) | "proc" (inside process()) | "wp" (inside writePending) |
+                      \* "rd" (inside readAvail) | "cb" (inside the data callback)
           \* ---- read side (counts are enough: the peer writes one ordered stream)
           pw,         \* bytes written by the peer
           kbuf,       \* bytes waiting in the socket receive buffer
@@ -66,9 +74,9 @@ VARIABLES nextIdx,    \* next send index
           peerFin,    \* the peer has closed its side
           sbuf,       \* TLS: bytes decrypted into the SSL object but not yet handed to the data callback (SSL_pending)
           gate        \* the next data callback parks (and may send) before it returns
-vars == <<nextIdx, acc, cmdq, wq, sslPend, wire, tls, wantWrite, armed, outEvt, room, errNext, closed, io,
+vars == <<nextIdx, acc, cmdq, batch, ev, evd, wq, sslPend, wire, tls, wantWrite, armed, outEvt, room, errNext, closed, io,
           pw, kbuf, inEvt, rcut, delivered, peerFin, sbuf, gate>>
-wvars == <<nextIdx, acc, cmdq, wq, sslPend, wire, tls, wantWrite, armed, outEvt, room, errNext, closed>>
+wvars == <<nextIdx, acc, cmdq, batch, ev, evd, wq, sslPend, wire, tls, wantWrite, armed, outEvt, room, errNext, closed>>
 rvars == <<pw, kbuf, inEvt, rcut, delivered, peerFin, sbuf, gate>>
 
 Min(a, b) == IF a < b THEN a ELSE b
@@ -77,7 +85,7 @@ RECURSIVE Flat(_)
 Flat(q) == IF q = <<>> THEN <<>> ELSE Bytes(Head(q).idx, Head(q).off, Head(q).len) \o Flat(Tail(q))
 IsPrefix(s, t) == Len(s) <= Len(t) /\ SubSeq(t, 1, Len(s)) = s
 
-Init == /\ nextIdx = 1 /\ acc = <<>> /\ cmdq = <<>> /\ wq = <<>> /\ sslPend = 0 /\ wire = <<>>
+Init == /\ nextIdx = 1 /\ acc = <<>> /\ cmdq = <<>> /\ batch = <<>> /\ ev = FALSE /\ evd = {} /\ wq = <<>> /\ sslPend = 0 /\ wire = <<>>
         /\ tls = (IF Tls THEN "Handshake" ELSE "None")
         /\ wantWrite = FALSE /\ armed = FALSE /\ outEvt = FALSE /\ room = 0 /\ errNext = FALSE /\ closed = FALSE
         /\ io = "idle"
@@ -87,26 +95,41 @@ Init == /\ nextIdx = 1 /\ acc = <<>> /\ cmdq = <<>> /\ wq = <<>> /\ sslPend = 0 
 \* updateInterest(): EPOLLOUT iff wantWrite or the queue is not empty; EPOLL_CTL_MOD re-evaluates readiness
 Rearm(ww, q, rm) == /\ armed' = (ww \/ q # <<>>)
                     /\ outEvt' = ((ww \/ q # <<>>) /\ rm > 0)
-CloseSess == /\ closed' = TRUE /\ wq' = <<>> /\ sslPend' = 0 /\ wantWrite' = FALSE /\ armed' = FALSE /\ outEvt' = FALSE
-             /\ errNext' = FALSE /\ io' = "idle"
+CloseCore == /\ closed' = TRUE /\ wq' = <<>> /\ sslPend' = 0 /\ wantWrite' = FALSE /\ armed' = FALSE /\ outEvt' = FALSE
+             /\ errNext' = FALSE
+CloseSess == CloseCore /\ io' = "idle"        \* from an event handler
+CloseProc == CloseCore /\ io' = "proc"        \* from process(): the rest of the batch is still worked off
 
 \* ------------------------------------------------------------------ application threads
 AppSend(t, n) == /\ nextIdx <= MaxSends
-                 /\ cmdq' = Append(cmdq, [k |-> "send", idx |-> nextIdx, off |-> 0, len |-> n])
+                 /\ cmdq' = Append(cmdq, [k |-> "send", idx |-> nextIdx, off |-> 0, len |-> n]) /\ ev' = TRUE
                  /\ acc' = Append(acc, [idx |-> nextIdx, off |-> 0, len |-> n])
                  /\ nextIdx' = nextIdx + 1
-                 /\ UNCHANGED <<wq, sslPend, wire, tls, wantWrite, armed, outEvt, room, errNext, closed, io>> /\ UNCHANGED rvars
+                 /\ UNCHANGED <<batch, evd, wq, sslPend, wire, tls, wantWrite, armed, outEvt, room, errNext, closed, io>> /\ UNCHANGED rvars
 AppClose == /\ AllowClose /\ ~closed /\ (IF cmdq = <<>> THEN TRUE ELSE cmdq[Len(cmdq)].k # "close")
-            /\ cmdq' = Append(cmdq, [k |-> "close", idx |-> 0, off |-> 0, len |-> 0])
-            /\ UNCHANGED <<nextIdx, acc, wq, sslPend, wire, tls, wantWrite, armed, outEvt, room, errNext, closed, io>> /\ UNCHANGED rvars
+            /\ cmdq' = Append(cmdq, [k |-> "close", idx |-> 0, off |-> 0, len |-> 0]) /\ ev' = TRUE
+            /\ UNCHANGED <<nextIdx, acc, batch, evd, wq, sslPend, wire, tls, wantWrite, armed, outEvt, room, errNext, closed, io>> /\ UNCHANGED rvars
 
 \* ------------------------------------------------------------------ I/O thread: process() -> doSend / close
-Cmd == Head(cmdq)
+\* the loop wakes on the readable eventfd, then drainEvt() and the swap in process() - in this order in the code
+WakeEvt == /\ io = "idle" /\ ev /\ io' = "ev" /\ evd' = {}
+           /\ UNCHANGED <<nextIdx, acc, cmdq, batch, ev, wq, sslPend, wire, tls, wantWrite, armed, outEvt, room, errNext, closed>> /\ UNCHANGED rvars
+EvNext(done) == IF done = {"drain", "swap"} THEN io' = "proc" /\ evd' = {} ELSE io' = "ev" /\ evd' = done
+DrainEvt == /\ io = "ev" /\ "drain" \notin evd /\ (IF Dev_DrainAfterSwap THEN "swap" \in evd ELSE "swap" \notin evd)
+            /\ ev' = FALSE /\ EvNext(evd \cup {"drain"})
+            /\ UNCHANGED <<nextIdx, acc, cmdq, batch, wq, sslPend, wire, tls, wantWrite, armed, outEvt, room, errNext, closed>> /\ UNCHANGED rvars
+SwapCmds == /\ io = "ev" /\ "swap" \notin evd /\ (IF Dev_DrainAfterSwap THEN "drain" \notin evd ELSE "drain" \in evd)
+            /\ batch' = cmdq /\ cmdq' = <<>> /\ EvNext(evd \cup {"swap"})
+            /\ UNCHANGED <<nextIdx, acc, ev, wq, sslPend, wire, tls, wantWrite, armed, outEvt, room, errNext, closed>> /\ UNCHANGED rvars
+ProcDone == /\ io = "proc" /\ batch = <<>> /\ io' = "idle"
+            /\ UNCHANGED <<nextIdx, acc, cmdq, batch, ev, evd, wq, sslPend, wire, tls, wantWrite, armed, outEvt, room, errNext, closed>> /\ UNCHANGED rvars
+
+Cmd == Head(batch)
 Buf == [idx |-> Cmd.idx, off |-> 0, len |-> Cmd.len]
-Proc(kind) == io = "idle" /\ cmdq # <<>> /\ Cmd.k = kind /\ cmdq' = Tail(cmdq)
+Proc(kind) == io = "proc" /\ batch # <<>> /\ Cmd.k = kind /\ batch' = Tail(batch) /\ UNCHANGED <<cmdq, ev, evd>>
 
 ProcessClose == /\ Proc("close")
-                /\ IF closed THEN UNCHANGED <<wq, sslPend, wantWrite, armed, outEvt, errNext, closed, io>> ELSE CloseSess
+                /\ IF closed THEN UNCHANGED <<wq, sslPend, wantWrite, armed, outEvt, errNext, closed, io>> ELSE CloseProc
                 /\ UNCHANGED <<nextIdx, acc, wire, tls, room>> /\ UNCHANGED rvars
 
 DoSendDropClosed == /\ Proc("send") /\ closed
@@ -147,7 +170,7 @@ DoSendEagain ==
 
 DoSendError ==
     /\ Proc("send") /\ ~closed /\ tls # "Handshake" /\ wq = <<>> /\ errNext
-    /\ CloseSess
+    /\ CloseProc
     /\ UNCHANGED <<nextIdx, acc, wire, tls, room>> /\ UNCHANGED rvars
 
 QueueBack ==
@@ -158,7 +181,7 @@ QueueBack ==
 \* default closeOnBackpressure policy
 BackpressureClose ==
     /\ Proc("send") /\ ~closed /\ tls # "Handshake" /\ wq # <<>> /\ Len(wq) + 1 > MaxWq
-    /\ CloseSess
+    /\ CloseProc
     /\ UNCHANGED <<nextIdx, acc, wire, tls, room>> /\ UNCHANGED rvars
 
 \* ------------------------------------------------------------------ I/O thread: EPOLLOUT -> writePending
@@ -166,7 +189,7 @@ OutReady == ~closed /\ armed /\ room > 0 /\ (ET => outEvt)
 
 EpollOutFires == /\ io = "idle" /\ OutReady /\ tls # "Handshake"
                  /\ outEvt' = FALSE /\ io' = "wp"
-                 /\ UNCHANGED <<nextIdx, acc, cmdq, wq, sslPend, wire, tls, wantWrite, armed, room, errNext, closed>> /\ UNCHANGED rvars
+                 /\ UNCHANGED <<nextIdx, acc, cmdq, batch, ev, evd, wq, sslPend, wire, tls, wantWrite, armed, room, errNext, closed>> /\ UNCHANGED rvars
 
 Front == Head(wq)
 FrontFrom == Front.off + sslPend
@@ -174,20 +197,20 @@ FrontRem == Front.len - FrontFrom
 
 WpEmpty == /\ io = "wp" /\ wq = <<>>
            /\ wantWrite' = FALSE /\ Rearm(FALSE, <<>>, room) /\ io' = "idle"
-           /\ UNCHANGED <<nextIdx, acc, cmdq, wq, sslPend, wire, tls, room, errNext, closed>> /\ UNCHANGED rvars
+           /\ UNCHANGED <<nextIdx, acc, cmdq, batch, ev, evd, wq, sslPend, wire, tls, room, errNext, closed>> /\ UNCHANGED rvars
 
 WritePendingError == /\ io = "wp" /\ wq # <<>> /\ errNext
                      /\ CloseSess
-                     /\ UNCHANGED <<nextIdx, acc, cmdq, wire, tls, room>> /\ UNCHANGED rvars
+                     /\ UNCHANGED <<nextIdx, acc, cmdq, batch, ev, evd, wire, tls, room>> /\ UNCHANGED rvars
 
 WritePendingEagain == /\ io = "wp" /\ wq # <<>> /\ ~errNext /\ room = 0
                       /\ wantWrite' = TRUE /\ Rearm(TRUE, wq, room) /\ io' = "idle"
-                      /\ UNCHANGED <<nextIdx, acc, cmdq, wq, sslPend, wire, tls, room, errNext, closed>> /\ UNCHANGED rvars
+                      /\ UNCHANGED <<nextIdx, acc, cmdq, batch, ev, evd, wq, sslPend, wire, tls, room, errNext, closed>> /\ UNCHANGED rvars
 
 WritePendingFull == /\ io = "wp" /\ wq # <<>> /\ ~errNext /\ room >= FrontRem
                     /\ wire' = wire \o Bytes(Front.idx, FrontFrom, Front.len) /\ room' = room - FrontRem
                     /\ wq' = Tail(wq) /\ sslPend' = 0
-                    /\ UNCHANGED <<nextIdx, acc, cmdq, tls, wantWrite, armed, outEvt, errNext, closed, io>> /\ UNCHANGED rvars
+                    /\ UNCHANGED <<nextIdx, acc, cmdq, batch, ev, evd, tls, wantWrite, armed, outEvt, errNext, closed, io>> /\ UNCHANGED rvars
 
 WritePendingPartial(k) ==
     /\ io = "wp" /\ wq # <<>> /\ ~errNext /\ room > 0 /\ room < FrontRem /\ k = room
@@ -198,19 +221,19 @@ WritePendingPartial(k) ==
               /\ LET rest == [Front EXCEPT !.off = IF Dev_KeepWrittenPrefix THEN @ ELSE @ + k] IN
                  wq' = IF Dev_PartialTailToBack THEN Append(Tail(wq), rest) ELSE <<rest>> \o Tail(wq)
     /\ wantWrite' = TRUE /\ Rearm(TRUE, wq, 0) /\ io' = "idle"
-    /\ UNCHANGED <<nextIdx, acc, cmdq, tls, errNext, closed>> /\ UNCHANGED rvars
+    /\ UNCHANGED <<nextIdx, acc, cmdq, batch, ev, evd, tls, errNext, closed>> /\ UNCHANGED rvars
 
 \* ------------------------------------------------------------------ TLS handshake completion (driveHandshake)
 HandshakeDone == /\ io = "idle" /\ ~closed /\ tls = "Handshake"
                  /\ tls' = "Open" /\ Rearm(wantWrite, wq, room)
-                 /\ UNCHANGED <<nextIdx, acc, cmdq, wq, sslPend, wire, wantWrite, room, errNext, closed, io>> /\ UNCHANGED rvars
+                 /\ UNCHANGED <<nextIdx, acc, cmdq, batch, ev, evd, wq, sslPend, wire, wantWrite, room, errNext, closed, io>> /\ UNCHANGED rvars
 
 \* ------------------------------------------------------------------ environment, write side
 KernelDrain(n) == /\ room + n <= MaxRoom /\ room' = room + n
                   /\ outEvt' = IF room = 0 /\ armed THEN TRUE ELSE outEvt             \* writable again: an edge
-                  /\ UNCHANGED <<nextIdx, acc, cmdq, wq, sslPend, wire, tls, wantWrite, armed, errNext, closed, io>> /\ UNCHANGED rvars
+                  /\ UNCHANGED <<nextIdx, acc, cmdq, batch, ev, evd, wq, sslPend, wire, tls, wantWrite, armed, errNext, closed, io>> /\ UNCHANGED rvars
 InjectErr == /\ ~errNext /\ ~closed /\ tls # "Handshake" /\ errNext' = TRUE
-             /\ UNCHANGED <<nextIdx, acc, cmdq, wq, sslPend, wire, tls, wantWrite, armed, outEvt, room, closed, io>> /\ UNCHANGED rvars
+             /\ UNCHANGED <<nextIdx, acc, cmdq, batch, ev, evd, wq, sslPend, wire, tls, wantWrite, armed, outEvt, room, closed, io>> /\ UNCHANGED rvars
 
 \* ------------------------------------------------------------------ read side
 PeerWrite(n) == /\ tls # "Handshake" /\ ~peerFin /\ pw + n <= PeerBytes
@@ -250,18 +273,20 @@ RecvEagain == /\ io = "rd" /\ kbuf = 0 /\ sbuf = 0 /\ ~peerFin /\ io' = "idle"
               /\ UNCHANGED <<pw, kbuf, inEvt, rcut, delivered, peerFin, sbuf, gate>> /\ UNCHANGED wvars
 RecvZero == /\ io = "rd" /\ kbuf = 0 /\ sbuf = 0 /\ peerFin
             /\ CloseSess
-            /\ UNCHANGED <<nextIdx, acc, cmdq, wire, tls, room>> /\ UNCHANGED rvars
+            /\ UNCHANGED <<nextIdx, acc, cmdq, batch, ev, evd, wire, tls, room>> /\ UNCHANGED rvars
 \* inside the (parked) data callback: the I/O thread calls send() itself - through the same command queue
 CbSend(n) == /\ io = "cb" /\ nextIdx <= MaxSends
              /\ LET c == [k |-> "send", idx |-> nextIdx, off |-> 0, len |-> n] IN
                 cmdq' = IF Dev_IoSendBypassesQueue THEN <<c>> \o cmdq ELSE Append(cmdq, c)
+             /\ ev' = TRUE
              /\ acc' = Append(acc, [idx |-> nextIdx, off |-> 0, len |-> n])
              /\ nextIdx' = nextIdx + 1
-             /\ UNCHANGED <<wq, sslPend, wire, tls, wantWrite, armed, outEvt, room, errNext, closed, io>> /\ UNCHANGED rvars
+             /\ UNCHANGED <<batch, evd, wq, sslPend, wire, tls, wantWrite, armed, outEvt, room, errNext, closed, io>> /\ UNCHANGED rvars
 CbReturn == /\ io = "cb" /\ io' = IF StopsEarly THEN "idle" ELSE "rd"
             /\ UNCHANGED rvars /\ UNCHANGED wvars
 
-IoNext == \/ ProcessClose \/ DoSendDropClosed \/ DoSendHandshakeQueue \/ (\E k \in 1..MaxLen : DoSendDirect(k))
+IoNext == \/ WakeEvt \/ DrainEvt \/ SwapCmds \/ ProcDone
+          \/ ProcessClose \/ DoSendDropClosed \/ DoSendHandshakeQueue \/ (\E k \in 1..MaxLen : DoSendDirect(k))
           \/ DoSendEagain \/ DoSendError \/ QueueBack \/ BackpressureClose \/ DoSendDirectOvertake
           \/ EpollOutFires \/ WpEmpty \/ WritePendingError \/ WritePendingEagain \/ WritePendingFull
           \/ (\E k \in 1..MaxRoom : WritePendingPartial(k))
@@ -279,7 +304,7 @@ FairSpec == Spec /\ WF_vars(IoNext) /\ WF_vars(\E n \in 1..MaxRoom : KernelDrain
 \* ------------------------------------------------------------------ the property
 AccBytes == Flat(acc)
 WqBytes == LET f == Flat(wq) IN SubSeq(f, sslPend + 1, Len(f))
-CmdBytes == Flat(SelectSeq(cmdq, LAMBDA c : c.k = "send"))
+CmdBytes == Flat(SelectSeq(batch \o cmdq, LAMBDA c : c.k = "send"))
 \* no loss, duplication, reordering, interleaving: what the kernel took, then what is queued, is what was accepted
 Inv_Stream == ~closed => wire \o WqBytes \o CmdBytes = AccBytes
 \* always (also after an early end): the peer sees a prefix
@@ -287,11 +312,12 @@ Inv_WirePrefix == IsPrefix(wire, AccBytes)
 Inv_Read == delivered + sbuf + kbuf = pw
 Inv_Types == /\ sslPend >= 0 /\ (sslPend > 0 => (wq # <<>> /\ tls = "Open" /\ sslPend < Front.len - Front.off))
              /\ room \in 0..MaxRoom /\ Len(wq) <= MaxSends     \* (the handshake queue is not bounded by maxWriteQueue)
-\* lost wake-ups as a safety property: when the kernel has room, nothing is queued in epoll and the I/O thread is idle with
-\* an empty command queue, nothing may be left in the write queue or in the receive buffer of an open session
-Quiescent == io = "idle" /\ cmdq = <<>> /\ room = MaxRoom /\ tls # "Handshake" /\ ~OutReady /\ ~InReady
-Inv_NoStuck == (Quiescent /\ ~closed) => (wq = <<>> /\ kbuf = 0 /\ sbuf = 0)
+\* lost wake-ups as a safety property: when the kernel has room, nothing is queued in epoll, the eventfd is not readable and
+\* the I/O thread is idle, nothing may be left in the command queue, the write queue or the receive buffers of an open session
+Quiescent == io = "idle" /\ ~ev /\ room = MaxRoom /\ tls # "Handshake" /\ ~OutReady /\ ~InReady
+Inv_NoStuck == (Quiescent /\ ~closed) => (cmdq = <<>> /\ batch = <<>> /\ wq = <<>> /\ kbuf = 0 /\ sbuf = 0)
 \* liveness under fairness
 Live_Write == (wq # <<>> /\ ~closed /\ tls # "Handshake") ~> (wq = <<>> \/ closed)
+Live_Cmd == (cmdq # <<>>) ~> (cmdq = <<>>)
 Live_Read == (kbuf + sbuf > 0 /\ ~closed) ~> ((kbuf = 0 /\ sbuf = 0) \/ closed)
 =============================================================================
